@@ -31,7 +31,10 @@
 #include "llbuild/Basic/FileInfo.h"
 #include "llbuild/Basic/FileSystem.h"
 
+#include <atomic>
 #include <cerrno>
+#include <thread>
+#include <vector>
 #include <dirent.h>
 #include <fcntl.h>
 #include <memory>
@@ -264,6 +267,46 @@ void mode_pairs() {
   removeAny(dir + "/t2");
 }
 
+// "Untouched paths compare equal", with several observers at once: N threads, each with its own file of `kib` KiB and
+// pseudo-random content, observe it `reps` times through ONE checksum-only file system; every observation must equal the
+// single-threaded baseline of that file.  Prints `par files=N reps=R unequal=U distinct_baselines=D`.
+void mode_par() {
+  std::string line;
+  while (std::getline(std::cin, line)) {
+    auto f = vh::split(line);
+    if (f.size() != 3) { std::cout << "bad-op\n"; continue; }
+    int n = atoi(f[0].c_str()), kib = atoi(f[1].c_str()), reps = atoi(f[2].c_str());
+    if (n < 1 || n > 16 || kib < 1 || kib > 65536 || reps < 1) { std::cout << "bad-op\n"; continue; }
+    auto fs = ChecksumOnlyFileSystem::from(createLocalFileSystem());
+    std::vector<std::string> paths;
+    std::vector<FileInfo> base;
+    for (int i = 0; i < n; i++) {
+      std::string p = dir + "/par" + std::to_string(i);
+      std::string c((size_t)kib * 1024, '\0');
+      uint64_t x = 0x9e3779b97f4a7c15ull * (uint64_t)(i + 1);
+      for (size_t j = 0; j < c.size(); j++) { x ^= x << 13; x ^= x >> 7; x ^= x << 17; c[j] = (char)(x & 0xff); }
+      int fd = ::open(p.c_str(), O_WRONLY | O_CREAT | O_TRUNC, 0644);
+      bool ok = fd >= 0 && writeAll(fd, c);
+      if (fd >= 0) ::close(fd);
+      if (!ok) { std::cout << "setup-failed errno=" << errno << "\n"; goto next; }
+      paths.push_back(p);
+    }
+    for (auto& p : paths) base.push_back(fs->getFileInfo(p));
+    {
+      int distinct = 0;
+      for (int i = 0; i < n; i++) { bool dup = false; for (int j = 0; j < i; j++) if (base[i].checksum == base[j].checksum) dup = true; if (!dup) distinct++; }
+      std::atomic<int> unequal{0};
+      std::vector<std::thread> ts;
+      for (int i = 0; i < n; i++)
+        ts.emplace_back([&, i] { for (int r = 0; r < reps; r++) { FileInfo o = fs->getFileInfo(paths[i]); if (!(o == base[i])) unequal++; } });
+      for (auto& t : ts) t.join();
+      std::cout << "par files=" << n << " reps=" << reps << " unequal=" << unequal.load() << " distinct_baselines=" << distinct << "\n";
+    }
+  next:
+    for (auto& p : paths) ::unlink(p.c_str());
+  }
+}
+
 }  // namespace
 
 int main(int argc, char** argv) {
@@ -275,6 +318,7 @@ int main(int argc, char** argv) {
   if (::mkdir(dir.c_str(), 0755) != 0 && errno != EEXIST) { perror("mkdir"); return 2; }
   int rc = 0;
   if (mode == "pairs") mode_pairs();
+  else if (mode == "par") mode_par();
   else { fprintf(stderr, "unknown mode %s\n", argv[1]); rc = 2; }
   ::rmdir(dir.c_str());
   return rc;
